@@ -6,17 +6,19 @@ import (
 )
 
 type busKnobs struct {
-	threads          int
-	ntypes           int
-	async, seq, once bool
-	panics           bool
-	ctx              bool // cancellable contexts and context-aware handlers
-	store, obs       bool
-	hooks            bool
-	viaAny           bool
-	pfaults          bool
-	shutdown         bool
-	actsPerThread    int
+	threads                              int
+	ntypes                               int
+	async, seq, once                     bool
+	panics                               bool
+	ctx                                  bool // cancellable contexts and context-aware handlers
+	store, obs                           bool
+	hooks                                bool
+	viaAny                               bool
+	pfaults                              bool
+	shutdown                             bool
+	actsPerThread                        int
+	wOnce, wAsync, wSeq, wPanic, wCtxPub int // percentages; 0 = default
+	manyTypes                            bool
 }
 
 func genBusProgram(rng *rand.Rand, k busKnobs) *busProgram {
@@ -97,7 +99,11 @@ func genBusProgram(rng *rand.Rand, k busKnobs) *busProgram {
 			return action{}, false
 		}
 		a := action{kind: "pub", t: minType + rng.Intn(k.ntypes-minType), v: rng.Intn(10)}
-		if k.ctx && rng.Intn(3) == 0 {
+		wc := k.wCtxPub
+		if wc == 0 {
+			wc = 33
+		}
+		if k.ctx && rng.Intn(100) < wc {
 			a.c = 1 + rng.Intn(2)
 		}
 		if k.viaAny && rng.Intn(6) == 0 {
@@ -126,7 +132,11 @@ func genBusProgram(rng *rand.Rand, k busKnobs) *busProgram {
 			}
 			as = append(as, simpleAct())
 		}
-		if k.panics && rng.Intn(4) == 0 {
+		wp := k.wPanic
+		if wp == 0 {
+			wp = 25
+		}
+		if k.panics && rng.Intn(100) < wp {
 			as = append(as, action{kind: "panic", v: rng.Intn(5)})
 		}
 		p.bodies[id] = as
@@ -138,14 +148,22 @@ func genBusProgram(rng *rand.Rand, k busKnobs) *busProgram {
 			sp.ctx = true
 			sp.fn++
 		}
-		if k.once && rng.Intn(4) == 0 {
+		pct := func(w, def int) bool {
+			if w == 0 {
+				w = def
+			}
+			return rng.Intn(100) < w
+		}
+		if k.once && pct(k.wOnce, 25) {
 			sp.once = true
 		}
-		if k.async && rng.Intn(3) == 0 && !(k.obs && asyncOfType[t]) {
+		if k.async && pct(k.wAsync, 33) && !(k.obs && (asyncOfType[t] || depth > 0)) {
+			// with observability on, an async delivery goroutine is first seen in OnHandlerStart, which does not
+			// know the handler: keep at most one async registration per type so that it can be identified
 			sp.async = true
 			asyncOfType[t] = true
 		}
-		if k.seq && rng.Intn(3) == 0 {
+		if k.seq && pct(k.wSeq, 33) {
 			sp.seq = true
 		}
 		if rng.Intn(3) == 0 {
@@ -208,25 +226,152 @@ func randomPick(rng *rand.Rand) func([]who) who {
 	return func(ps []who) who { return ps[rng.Intn(len(ps))] }
 }
 
+// newest-first: always resume the most recently seen actor (forces "the second delivery takes the lock first")
+func newestPick(ps []who) who { return ps[len(ps)-1] }
+
+// threads first, then the newest task: lets a goroutine publish several events before any delivery proceeds
+func threadsThenNewest(ps []who) who {
+	for _, w := range ps {
+		if w.thread {
+			return w
+		}
+	}
+	return ps[len(ps)-1]
+}
+
+// directed programs: witnesses of findings and past failures, run before the random cases of a family
+func directedBus(name string, idx int) (*busProgram, func([]who) who) {
+	sub := func(t int, sp hspec) action { return action{kind: "sub", t: t, sp: sp} }
+	pub := func(t, v, c int) action { return action{kind: "pub", t: t, v: v, c: c} }
+	base := func() *busProgram {
+		return &busProgram{bodies: map[int][]action{0: {}}, filters: map[int]filt{0: {min: 5}}, pfaults: map[int]string{}, ntypes: 2}
+	}
+	switch {
+	case name == "bus07" && idx == 0:
+		// Async+Sequential handler, two events from one goroutine, the second delivery is let through first
+		p := base()
+		p.opts, p.optArgs = []string{"obs"}, []int{0}
+		p.threads = [][]action{{sub(0, hspec{fn: 0, async: true, seq: true, filter: -1}), pub(0, 1, 0), pub(0, 2, 0), {kind: "wait"}}}
+		return p, threadsThenNewest
+	case name == "bus04" && idx == 0:
+		// Once handler: a publish with an already-cancelled context, then an eligible one
+		p := base()
+		p.threads = [][]action{{sub(0, hspec{fn: 0, once: true, filter: -1}), {kind: "cancel", c: 1}, pub(0, 1, 1), {kind: "count", t: 0}, pub(0, 2, 0), {kind: "count", t: 0}}}
+		return p, newestPick
+	case name == "bus04" && idx == 1:
+		// Once handler whose filter rejects the first event
+		p := base()
+		p.threads = [][]action{{sub(0, hspec{fn: 0, once: true, filter: 0}), pub(0, 1, 0), {kind: "count", t: 0}, pub(0, 7, 0), {kind: "count", t: 0}, pub(0, 8, 0)}}
+		return p, newestPick
+	case name == "bus09" && idx == 0:
+		// WithStore given before WithBeforePublishContext
+		p := base()
+		p.bodies[1] = []action{}
+		p.opts, p.optArgs = []string{"store", "beforeCtx"}, []int{0, 1}
+		p.threads = [][]action{{sub(0, hspec{fn: 0, filter: -1}), pub(0, 1, 0)}}
+		return p, newestPick
+	case name == "bus01" && idx == 0:
+		// a filtered handler and a publish through an any-typed value
+		p := base()
+		p.threads = [][]action{{sub(0, hspec{fn: 0, filter: 0}), {kind: "pub", t: 0, v: 1, viaAny: true}, {kind: "pub", t: 0, v: 9, viaAny: true}}}
+		return p, newestPick
+	case name == "bus01" && idx == 1:
+		// re-entrant publish from an earlier handler while a once-handler and a later plain handler are registered
+		p := base()
+		p.bodies[1] = []action{pub(1, 2, 0)}
+		p.bodies[2] = []action{}
+		p.threads = [][]action{{sub(1, hspec{fn: 0, filter: -1, body: 0}), sub(0, hspec{fn: 0, filter: -1, body: 1}),
+			sub(1, hspec{fn: 2, once: true, filter: -1}), sub(1, hspec{fn: 4, filter: -1}), pub(0, 1, 0), pub(1, 3, 0)}}
+		return p, newestPick
+	}
+	return nil, nil
+}
+
 func runBusFamily(name string, knobs func(rng *rand.Rand) busKnobs) func(rng *rand.Rand, idx int, tier string) Case {
 	return func(rng *rand.Rand, idx int, tier string) Case {
 		k := knobs(rng)
-		prog := genBusProgram(rng, k)
-		in, obs, tags := runControlled(prog, randomPick(rng))
+		prog, pick := directedBus(name, idx)
+		if prog == nil {
+			prog = genBusProgram(rng, k)
+			pick = randomPick(rng)
+		} else {
+			k.threads = len(prog.threads)
+		}
+		in, obs, tags := runControlled(prog, pick)
 		tags = append(tags, fmt.Sprintf("threads%d", k.threads))
 		return Case{Input: in, Obs: obs, Tags: tags, Nontrivial: true}
 	}
 }
 
+func b2(rng *rand.Rand) bool { return rng.Intn(2) == 0 }
+
 func init() {
-	register(&Family{Name: "busseq", Quick: 150, Thorough: 4000, Run: runBusFamily("busseq", func(rng *rand.Rand) busKnobs {
-		return busKnobs{threads: 1, ntypes: 2 + rng.Intn(3), async: rng.Intn(2) == 0, seq: true, once: true,
-			panics: rng.Intn(2) == 0, ctx: rng.Intn(2) == 0, store: rng.Intn(3) == 0, obs: rng.Intn(3) == 0,
-			hooks: rng.Intn(2) == 0, viaAny: true, pfaults: rng.Intn(2) == 0, actsPerThread: 8}
-	})})
-	register(&Family{Name: "buscon", Quick: 150, Thorough: 4000, Run: runBusFamily("buscon", func(rng *rand.Rand) busKnobs {
-		return busKnobs{threads: 2 + rng.Intn(2), ntypes: 1 + rng.Intn(3), async: rng.Intn(2) == 0, seq: true, once: true,
+	fam := func(name string, quick, thorough int, kn func(rng *rand.Rand) busKnobs) {
+		register(&Family{Name: name, Quick: quick, Thorough: thorough, Run: runBusFamily(name, kn)})
+	}
+	// general mixes
+	fam("busseq", 150, 4000, func(rng *rand.Rand) busKnobs {
+		return busKnobs{threads: 1, ntypes: 2 + rng.Intn(3), async: b2(rng), seq: true, once: true,
+			panics: b2(rng), ctx: b2(rng), store: rng.Intn(3) == 0, obs: rng.Intn(3) == 0,
+			hooks: b2(rng), viaAny: true, pfaults: b2(rng), actsPerThread: 8}
+	})
+	fam("buscon", 150, 4000, func(rng *rand.Rand) busKnobs {
+		return busKnobs{threads: 2 + rng.Intn(2), ntypes: 1 + rng.Intn(3), async: b2(rng), seq: true, once: true,
 			panics: rng.Intn(3) == 0, ctx: rng.Intn(3) == 0, store: rng.Intn(4) == 0, obs: rng.Intn(4) == 0,
 			hooks: rng.Intn(3) == 0, viaAny: false, pfaults: false, actsPerThread: 4}
-	})})
+	})
+	// C01: one goroutine, re-entrant calls, more types than shards in a third of the cases
+	fam("bus01", 200, 6000, func(rng *rand.Rand) busKnobs {
+		nt := 2 + rng.Intn(4)
+		if rng.Intn(3) == 0 {
+			nt = 33 + rng.Intn(8)
+		}
+		return busKnobs{threads: 1, ntypes: nt, async: rng.Intn(3) == 0, seq: true, once: true, panics: rng.Intn(4) == 0,
+			ctx: rng.Intn(4) == 0, hooks: rng.Intn(3) == 0, viaAny: true, actsPerThread: 10}
+	})
+	// C02: 2-4 goroutines on 1-3 shared types
+	fam("bus02", 200, 6000, func(rng *rand.Rand) busKnobs {
+		return busKnobs{threads: 2 + rng.Intn(3), ntypes: 1 + rng.Intn(3), async: rng.Intn(3) == 0, seq: rng.Intn(3) == 0,
+			once: true, actsPerThread: 4}
+	})
+	// C04: Once handlers, filters, cancelled publishes, 1-3 publishers
+	fam("bus04", 200, 6000, func(rng *rand.Rand) busKnobs {
+		return busKnobs{threads: 1 + rng.Intn(3), ntypes: 1 + rng.Intn(2), async: b2(rng), seq: rng.Intn(4) == 0, once: true,
+			wOnce: 70, ctx: true, wCtxPub: 50, actsPerThread: 6}
+	})
+	// C05: panicking handlers of every kind at every position
+	fam("bus05", 200, 6000, func(rng *rand.Rand) busKnobs {
+		return busKnobs{threads: 1 + rng.Intn(2), ntypes: 1 + rng.Intn(3), async: b2(rng), seq: true, once: true, panics: true,
+			wPanic: 60, ctx: rng.Intn(3) == 0, obs: rng.Intn(3) == 0, actsPerThread: 6}
+	})
+	// C06: async work, nested async publishes, Wait at many positions, Shutdown with live and cancelled contexts
+	fam("bus06", 200, 6000, func(rng *rand.Rand) busKnobs {
+		return busKnobs{threads: 1 + rng.Intn(2), ntypes: 2 + rng.Intn(3), async: true, wAsync: 70, seq: rng.Intn(3) == 0,
+			once: rng.Intn(3) == 0, ctx: true, store: b2(rng), shutdown: true, actsPerThread: 6}
+	})
+	// C07: Sequential handlers, sync and async, concurrent publishers; observability on so that async deliveries can
+	// be held before they take the handler's lock
+	fam("bus07", 200, 6000, func(rng *rand.Rand) busKnobs {
+		return busKnobs{threads: 1 + rng.Intn(3), ntypes: 1 + rng.Intn(2), async: true, wAsync: 60, seq: true, wSeq: 80,
+			obs: b2(rng), panics: rng.Intn(4) == 0, actsPerThread: 5}
+	})
+	// C08: cancellation at every point, context-aware handlers, all hook subsets
+	fam("bus08", 200, 6000, func(rng *rand.Rand) busKnobs {
+		return busKnobs{threads: 1, ntypes: 1 + rng.Intn(3), async: rng.Intn(3) == 0, seq: rng.Intn(4) == 0, once: rng.Intn(4) == 0,
+			ctx: true, wCtxPub: 70, hooks: true, obs: rng.Intn(4) == 0, actsPerThread: 8}
+	})
+	// C09 / C13: persistent bus, every order of options, concurrent publishers, persistence faults
+	fam("bus09", 200, 6000, func(rng *rand.Rand) busKnobs {
+		return busKnobs{threads: 1 + rng.Intn(3), ntypes: 1 + rng.Intn(3), async: rng.Intn(3) == 0, store: true, hooks: true,
+			obs: rng.Intn(3) == 0, panics: rng.Intn(4) == 0, actsPerThread: 5}
+	})
+	fam("bus13", 200, 6000, func(rng *rand.Rand) busKnobs {
+		return busKnobs{threads: 1 + rng.Intn(2), ntypes: 1 + rng.Intn(3), async: rng.Intn(3) == 0, store: true, pfaults: true,
+			hooks: rng.Intn(3) == 0, obs: rng.Intn(3) == 0, actsPerThread: 7}
+	})
+	// C20: observability on, everything else mixed
+	fam("bus20", 200, 6000, func(rng *rand.Rand) busKnobs {
+		return busKnobs{threads: 1 + rng.Intn(2), ntypes: 1 + rng.Intn(3), async: b2(rng), seq: b2(rng), once: b2(rng),
+			panics: b2(rng), ctx: b2(rng), store: b2(rng), pfaults: b2(rng), obs: true, hooks: rng.Intn(3) == 0, actsPerThread: 6}
+	})
 }
